@@ -19,7 +19,7 @@ from jinja2 import Environment, nodes
 from pyvc import core
 from pyvc.core import Obligation, PROVED, REFUTED, UNDECIDED
 from pyvc.engine_b import Case, Clause, FnContract
-from pyvc.symexec import SFunc, SObj, SOpaque, SStr, SV
+from pyvc.symexec import SDict, SFunc, SObj, SOpaque, SStr, SV, Unsupported
 
 # option -> units (file[:function]) that may read it
 DOCUMENTED = {
@@ -202,3 +202,153 @@ def class_from_string_contract():
                           "module_name or name); the override is used iff the derived class name is a key", props=["C16", "C09"])
     return FnContract("openapi_python_client.parser.properties.schemas:Class.from_string",
                       [Case("any", make, [cl], raises=(), props=["C16", "C09"])])
+
+
+# ---- Config.from_sources: every option reaches the Config unchanged ------------------------------------------------------
+
+class _Table(SOpaque):
+    """a dict option of unknown content: known by a content term (uninterpreted sort); truthiness = non-emptiness.
+    Iterating its items in a dict comprehension yields the same content iff the comprehension is the identity on a generic
+    (key, value) pair, otherwise SOME other content."""
+    SORT = z3.DeclareSort("TableContent")
+    EMPTY = z3.Const("empty_table", SORT)
+
+    def __init__(self, name, content=None, nonempty=None):
+        super().__init__(name, cls=dict)
+        self.content = content if content is not None else z3.Const("content_of_" + name, _Table.SORT)
+        self._nonempty = nonempty if nonempty is not None else (self.content != _Table.EMPTY)
+
+    @property
+    def nonempty(self):
+        return self._nonempty
+
+    def getattr(self, I, name):
+        if name == "items":
+            return SFunc("model", lambda I2, a, k: _Items(self))
+        raise Unsupported(f"dict method {name} on an option table")
+
+
+class _Items:
+    def __init__(self, table):
+        self.table = table
+
+    def dictcomp_hook(self, I, image):
+        from pyvc.symexec import STuple
+        k, v = SStr(I.fresh("some_key", z3.StringSort())), SOpaque("some value of " + self.table.name, cls=object)
+        k2, v2 = image(STuple([k, v]))
+        same_key = isinstance(k2, SStr) and z3.eq(z3.simplify(k2.t), z3.simplify(k.t))
+        if same_key and v2 is v:
+            return _Table(self.table.name + " (copied)", self.table.content, self.table.nonempty)
+        return _Table(self.table.name + " (rewritten)", I.fresh("rewritten_content", _Table.SORT))
+
+
+PASSTHROUGH = ["project_name_override", "package_name_override", "package_version_override",
+               "use_path_prefixes_for_title_model_names", "docstrings_on_attributes", "field_prefix", "generate_all_tags",
+               "http_timeout", "literal_enums"]
+ARGS = ["meta_type", "document_source", "file_encoding", "overwrite", "output_path"]
+
+
+def from_sources_contract():
+    """C16: Config.from_sources copies every option of the ConfigFile and every CLI argument into the Config unchanged; an
+    absent table option becomes an empty table; post_hooks given are kept, absent ones become the documented default of the
+    meta type."""
+    def make(I):
+        from openapi_python_client import config as C
+        fields = {f: SOpaque(f"config_file.{f}", cls=object) for f in PASSTHROUGH}
+        tables = {}
+        for f in ("class_overrides", "content_type_overrides"):
+            tables[f] = None if I.branch_free() else _Table(f)
+            fields[f] = tables[f]
+        hooks = None if I.branch_free() else SOpaque("config_file.post_hooks", cls=list)
+        if hooks is not None:
+            hooks.nonempty = z3.Const("post_hooks_nonempty", z3.BoolSort())
+        fields["post_hooks"] = hooks
+        cf = SObj(C.ConfigFile, fields)
+        metas = list(C.MetaType)
+        meta = metas[I.choose(len(metas))]
+        args = {a: SOpaque(f"argument.{a}", cls=object) for a in ARGS}
+        args["meta_type"] = meta
+        return SFunc("pyfunc", C.Config.from_sources), [], dict(config_file=cf, **args), {
+            "fields": fields, "tables": tables, "hooks": hooks, "args": args, "C": C, "meta": meta}
+
+    def copied(ctx):
+        i = ctx.inputs
+        r = ctx.value
+        if not (isinstance(r, SObj) and r.cls is i["C"].Config):
+            return False
+        for f in PASSTHROUGH:
+            if r.fields.get(f) is not i["fields"][f]:
+                return False
+        for a in ARGS:
+            if r.fields.get(a) is not i["args"][a]:
+                return False
+        return True
+
+    def tables(ctx):
+        i = ctx.inputs
+        r = ctx.value
+        if not isinstance(r, SObj):
+            return False
+        conds = []
+        for f, t in i["tables"].items():
+            got = r.fields.get(f)
+            if t is None:
+                if not (isinstance(got, SDict) and not got.items and got.rest is None):
+                    return False
+                continue
+            # a given table arrives with its content (an empty one may be replaced by a new empty dict)
+            if isinstance(got, _Table):
+                conds.append(got.content == t.content)
+            elif isinstance(got, SDict) and not got.items and got.rest is None:
+                conds.append(z3.Not(t.nonempty))
+            else:
+                return False
+        return z3.And(*conds) if conds else True
+
+    def hooks(ctx):
+        i = ctx.inputs
+        r = ctx.value
+        if not isinstance(r, SObj):
+            return False
+        got = r.fields.get("post_hooks")
+        if i["hooks"] is not None:
+            return got is i["hooks"]
+        from pyvc.symexec import SList
+        if not isinstance(got, SList) or len(got.items) != 2 or not all(isinstance(x, str) for x in got.items):
+            return False
+        want = ["ruff check . --fix --extend-select=I", "ruff format ."] if i["meta"] is i["C"].MetaType.NONE else \
+            ["ruff check --fix .", "ruff format ."]
+        return list(got.items) == want
+
+    NATIVE_SETUP = (
+        "from openapi_python_client.config import Config, ConfigFile, MetaType\n"
+        "from pathlib import Path\n"
+        "def TARGET_OBJ(**cf):\n"
+        "    f = ConfigFile(**cf)\n"
+        "    c = Config.from_sources(f, MetaType.NONE, Path('doc.json'), 'utf-8', False, None)\n"
+        "    return {'file': f, 'config': c}\n"
+        "def SAME(result):\n"
+        "    f, c = result['file'], result['config']\n"
+        "    return c.content_type_overrides == (f.content_type_overrides or {}) and c.class_overrides == (f.class_overrides or {}) \\\n"
+        "        and (f.post_hooks is None or c.post_hooks == f.post_hooks) and c.field_prefix == f.field_prefix\n")
+
+    def pool():
+        return [{}, {"content_type_overrides": {"application/vnd.Acme.Thing+custom": "application/json"}},
+                {"content_type_overrides": {" text/x ": "text/plain"}},
+                {"class_overrides": {"A Model": {"class_name": "Other", "module_name": "other"}}},
+                {"class_overrides": {}, "content_type_overrides": {}, "post_hooks": []},
+                {"post_hooks": ["echo  x"], "field_prefix": "F_"}]
+
+    nat = "exc is not None or not SAME(result)"
+    clauses = [
+        Clause("scalars-and-arguments-unchanged", copied, native=nat,
+               statement="every scalar option of the config file and every CLI argument is the corresponding Config field, unchanged"),
+        Clause("tables-unchanged", tables, native=nat,
+               statement="class_overrides / content_type_overrides: absent => {}; given => the same content (keys and values as written)"),
+        Clause("post-hooks", hooks, native=nat,
+               statement="post_hooks given => kept as given (also when empty); absent => the documented default of the meta type"),
+    ]
+    case = Case("any-config-file", make, clauses, raises=(), props=["C16"], pool=pool)
+    case.native_target = "openapi_python_client.config:Config.from_sources"
+    case.native_setup = NATIVE_SETUP
+    return FnContract("openapi_python_client.config:Config.from_sources", [case])
